@@ -10,6 +10,8 @@ forms, language tags differing in case, nasty Unicode):
   n3     : from_n3(t.n3()), Turtle parse and SPARQL parse of t.n3() give the same term"""
 from __future__ import annotations
 
+import re
+
 import copy
 import datetime
 import decimal
@@ -32,6 +34,7 @@ RULE = ("terms of every kind; literals: plain/lang (10 tags, mixed case)/typed (
         "distinct by SHA-1 of the case JSON.")
 ASSUMPTIONS = ["literal-vs-literal order is not asserted to be total/transitive, only that sorted() does not raise",
                "<= and >= are asserted only when at least one side is not a literal",
+               "SPARQL read-back is not asked for texts holding a backslash followed by uXXXX / UXXXXXXXX (SPARQL 19.2 replaces such sequences before parsing)",
                "n3 read-back compares with canonical(t) = Literal(str(t), lang, datatype): parsing re-normalises by documented design"]
 
 KIND_RANK = {"b": 0, "v": 1, "u": 2, "l": 3}
@@ -276,6 +279,11 @@ def run_n3(case):
             continue
         # SPARQL
         if K.skip("C07-sparql-tab-expansion", tab, out):
+            continue
+        if re.search(r"\\(u[0-9A-Fa-f]{4}|U[0-9A-Fa-f]{8})", str(t)):
+            # the text itself holds a backslash followed by uXXXX: SPARQL replaces codepoint escapes in the whole query string before
+            # it is parsed (19.2), also behind the doubled backslash that n3() writes, so this n3() text is not the term in SPARQL
+            out.cls("sparql-codepoint-escape-in-text-skipped")
             continue
         q = f"SELECT ?x WHERE {{ VALUES ?x {{ {text} }} }}"
         r = sut(lambda: list(Graph().query(q)))
